@@ -70,7 +70,7 @@ func (d *unmarshalTextDecoder) DecodeStream(s *Stream, depth int64, p unsafe.Poi
 			}
 		case 'n':
 			if bytes.Equal(src, nullbytes) {
-				*(*unsafe.Pointer)(p) = nil
+				// null leaves a (non-pointer) TextUnmarshaler value as it is
 				return nil
 			}
 		}
@@ -123,7 +123,7 @@ func (d *unmarshalTextDecoder) Decode(ctx *RuntimeContext, cursor, depth int64, 
 			}
 		case 'n':
 			if bytes.Equal(src, nullbytes) {
-				*(*unsafe.Pointer)(p) = nil
+				// null leaves a (non-pointer) TextUnmarshaler value as it is
 				return end, nil
 			}
 		}
